@@ -171,7 +171,7 @@ def monitor(case, impl):
 
 
 WAIT_EXPECT = {"before": True, "after": False, "closed": True, "closedinit": True, "cbslow": True,
-               "zero": False, "neg": False, "zeroclosed": None}
+               "zero": False, "neg": False, "zeroclosed": None, "reuse": True}
 
 
 def monitor_wait(case, impl):
@@ -185,6 +185,9 @@ def monitor_wait(case, impl):
     ms = int(mo.group(2))
     exp = WAIT_EXPECT[m["mode"]]
     timeout, delta = int(m["timeout"]), int(m["delta"])
+    if m["mode"] == "reuse" and not res:
+        return ("waitutil-result", "after a WaitUtil(%dms) whose close and timer fired almost together, WaitUtil(5s) on a FRESH object closed after 10ms "
+                "returned false after %dms: something of the earlier call (a fired timer) leaked into it" % (timeout, ms))
     if exp is not None and res != exp:
         return ("waitutil-result", "WaitUtil(%dms) mode=%s returned %s after %dms, expected %s (close %s the timeout by %dms)" % (
             timeout, m["mode"], res, ms, exp, "before" if exp else "after", delta))
@@ -248,6 +251,9 @@ FIXED_2X2 = [
     [["C", "C"], ["KN", "I"]], [["KP", "I"], ["C", "Kn"]], [["KN", "C"], ["C", "KP"]],
     [["I", "C"], ["KE", "KN"]], [["K0", "C"], ["C", "I"]], [["Kp", "C"], ["KN", "C"]],
     [["C", "KN"], ["C", "KE"]], [["KN", "KN"], ["KP", "I"]], [["I", "I"], ["KP"]],
+    # an object already initialised by C(), a Close whose callback is still running, and a second closer
+    # (nil callback / non-blocking callback) arriving meanwhile: it must wait for the first one
+    [["C", "KN"], ["K0", "I"]], [["C", "KE"], ["K0", "C"]], [["C", "KP"], ["K0", "I"]], [["C", "KN"], ["Kn", "I"]],
 ]
 
 
@@ -294,6 +300,7 @@ def gen_wait(tier):
     for timeout, delta in ([(90, 40)] if tier == "quick" else [(90, 40), (150, 50), (60, 30)]):
         for mode in ("before", "after", "closed", "closedinit", "cbslow", "zero", "neg", "zeroclosed"):
             cases.append("c16w mode=%s timeout=%d delta=%d" % (mode, timeout, delta))
+    cases.append("c16w mode=reuse timeout=20 delta=1")
     return cases
 
 
